@@ -101,6 +101,10 @@ PD_RANDOM = {'quick': 300, 'thorough': 2000}   # ... plus this many random large
 RANDOM = {'quick': 12000, 'thorough': 600000}   # free random stream
 PD_EXTRA = {'quick': 1200, 'thorough': 40000}   # PdiffIndex Current-as-list / single-line 3-column cases
 HIST = {'quick': 6000, 'thorough': 200000}      # histories (one object, 2..4 dumps with mutations between)
+# mixed text layout (first record on the field line, further records on continuation lines)
+MIXED_P = 0.25                                  # share of >= 2-record fields of ANY parsed text written that way
+MIXED_REPS = {'quick': 10, 'thorough': 150}     # fillings per (config, structured field, record count 2..4)
+MIXED_PAR = {'quick': 2000, 'thorough': 60000}  # paragraphs mixing the three layouts across their fields
 
 # ~50% of what the unchanged (repaired) tree measures: quick = minimum over VERIF_SEED 0..3, thorough = seed 0.
 # has-absent-field is counted per judged dump.  The hist:* / pdiff:* floors make a run that never drives the
@@ -231,6 +235,10 @@ def render_text(r, items, forms):
         lines = [render_line(r, rec, layout, width) for rec in recs]
         if forms[lower] == 'single':
             out.append('%s:%s%s\n' % (key, r.choice([' ', ' ', '  ', '']), lines[0]))
+        elif forms[lower] == 'mixed':
+            # first record on the field line, the further ones on continuation lines
+            out.append('%s:%s%s\n' % (key, r.choice([' ', ' ', '  ', '']), lines[0]) +
+                       ''.join(' %s\n' % l for l in lines[1:]))
         else:
             out.append('%s:\n' % key + ''.join(' %s\n' % l for l in lines))
     return ''.join(out)
@@ -263,13 +271,21 @@ def pd_is_3col(f):
     return f.endswith(('-history', '-patches', '-download'))
 
 
-def gen_case(r, clsname, behavior, subset, mode, big=False, tweak=None):
+def gen_case(r, clsname, behavior, subset, mode, big=False, tweak=None, force=None):
     """tweak (PdiffIndex only): 'pd-current-list' forces SHA*-Current present as >= 2 records with sizes of
     different lengths; 'pd-single3' forces text mode with 1..3 History/Patches/Download fields whose only
-    record sits on the field line."""
+    record sits on the field line.
+    force (any class): {field: [form, nrecords]} - text mode, these fields present with exactly that text
+    layout ('single' / 'multi' / 'mixed') and record count."""
     table = mv.DOC[clsname]
     present = list(subset)
     force_single, mixed = set(), set()
+    force = force or {}
+    if force:
+        mode = 'text'
+        for f in sorted(force):
+            if f not in present:
+                present.append(f)
     if tweak == 'pd-current-list':
         for f in r.sample(PD_CURRENT, r.choice([1, 2])):
             if f not in present:
@@ -293,9 +309,11 @@ def gen_case(r, clsname, behavior, subset, mode, big=False, tweak=None):
             counts[f] = r.choice([2, 2, 3, 4])
         if f in force_single:
             counts[f] = 1
+        if f in force:
+            counts[f] = force[f][1]
     if present and r.random() < 0.85 and max(counts.values()) < 2:
         f = r.choice(present)
-        if f not in force_single:
+        if f not in force_single and f not in force:
             counts[f] = r.randint(2, 4)
     items = []
     expect = {}
@@ -312,8 +330,15 @@ def gen_case(r, clsname, behavior, subset, mode, big=False, tweak=None):
     if mode == 'text':
         forms = {}
         for f in present:
-            forms[f] = 'single' if (counts[f] == 1 and (r.random() < 0.5 or f in force_single)) else 'multi'
+            if f in force:
+                forms[f] = force[f][0]
+            elif counts[f] == 1:
+                forms[f] = 'single' if (r.random() < 0.5 or f in force_single) else 'multi'
+            else:
+                forms[f] = 'mixed' if r.random() < MIXED_P else 'multi'
         text = render_text(r, items, forms)
+        # the structured field (if any) that is the last field of the paragraph text
+        case['last_item'] = items[-1][2] if items[-1][1] == 'records' else None
         inputs = ['str', 'str', 'bytes', 'lines', 'lines_nonl', 'file', 'bfile']
         if clsname in ('Dsc', 'Changes', 'BuildInfo'):
             inputs.append('signed')
@@ -348,13 +373,15 @@ def initial_state(case):
     if case['mode'] == 'text':
         recs = copy.deepcopy(case['expect'])
         form = dict((f, 'single' if v == 'single' else 'list') for f, v in case['forms'].items())
+        mixed = set(f for f, v in case['forms'].items() if v == 'mixed')
     else:
-        recs, form = {}, {}
+        recs, form, mixed = {}, {}, set()
         for it in case['items']:
             if it[1] == 'records':
                 recs[it[2]] = copy.deepcopy(it[3])
                 form[it[2]] = 'list'
-    return {'recs': recs, 'form': form, 'behavior': case['behavior']}
+    # 'mixed': fields whose value still is the one parsed from the mixed text layout (not re-assigned since)
+    return {'recs': recs, 'form': form, 'behavior': case['behavior'], 'mixed': mixed}
 
 
 def model_apply(state, op, table):
@@ -365,9 +392,11 @@ def model_apply(state, op, table):
     elif k == 'assign':
         state['recs'][op[2]] = [list(x) for x in op[3]]
         state['form'][op[2]] = 'list'
+        state['mixed'].discard(op[2])
     elif k == 'delete':
         del state['recs'][op[2]]
         del state['form'][op[2]]
+        state['mixed'].discard(op[2])
     elif k == 'append':
         state['recs'][op[2]].append(list(op[3]))
     elif k == 'insert':
@@ -544,12 +573,50 @@ def enumerated(seed, tier):
     return out
 
 
+def mixed_enumerated():
+    """(clsname, behavior, field, nrecords) for every structured field of every configuration x 2..4 records."""
+    out = []
+    for clsname, behavior in mv.CONFIGS:
+        for f in sorted(mv.DOC[clsname]):
+            for n in (2, 3, 4):
+                out.append((clsname, behavior, f, n))
+    return out
+
+
+def gen_mixed_paragraph(r, clsname, behavior):
+    """One parsed paragraph with >= 2 structured fields, at least one of them in the mixed layout and (mostly)
+    the others in the two classic layouts."""
+    fields = sorted(mv.DOC[clsname])
+    k = r.randint(2, 4) if len(fields) <= 4 else r.choice([2, 3, 3, 4, 5, 6, 8, 14])
+    chosen = r.sample(fields, k)
+    style = r.choice(['free', 'free', 'free', 'all-mixed', 'mixed+single', 'mixed+multi'])
+    force = {}
+    for i, f in enumerate(chosen):
+        if i == 0 or style == 'all-mixed':
+            form = 'mixed'
+        elif style == 'mixed+single':
+            form = r.choice(['single', 'single', 'mixed'])
+        elif style == 'mixed+multi':
+            form = r.choice(['multi', 'multi1', 'mixed'])
+        else:
+            form = r.choice(['single', 'multi', 'multi1', 'mixed'])
+        if form == 'single':
+            force[f] = ['single', 1]
+        elif form == 'multi1':
+            force[f] = ['multi', 1]
+        else:
+            force[f] = [form, r.choice([2, 2, 3, 4])]
+    return gen_case(r, clsname, behavior, [], 'text', force=force)
+
+
 def setup(ctx):
     ctx.extra['exhaustive_subspaces'] = [
         'presence subsets: all 16 subsets of the 4 structured fields of Dsc, Changes, BuildInfo, Release(apt-ftparchive), '
         'Release(dak), each in text and build mode',
         'presence subsets: all subsets of size <= %d of PdiffIndex\'s 14 structured fields, the full set and all 13-subsets, '
-        'each in text and build mode' % PD_MAXK[ctx.tier]]
+        'each in text and build mode' % PD_MAXK[ctx.tier],
+        'mixed text layout (first record on the field line, further records on continuation lines): every structured '
+        'field of every configuration x 2, 3 and 4 records, %d fillings each' % MIXED_REPS[ctx.tier]]
 
 
 def cases(ctx):
@@ -572,6 +639,25 @@ def cases(ctx):
         sub = [f for f in fields if r.random() < p]
         yield gen_case(r, 'PdiffIndex', None, sub, r.choice(['text', 'build']),
                        tweak=('pd-current-list', 'pd-single3')[i % 2])
+    # mixed layout: first record on the field line, further records on continuation lines - every structured
+    # field of every configuration x 2..4 records (enumerated), then paragraphs mixing the layouts across fields
+    i = 0
+    for (clsname, behavior, f, n) in mixed_enumerated():
+        for rep in range(MIXED_REPS[ctx.tier]):
+            if ctx.mine(i):
+                rr = ctx.rng('mixed-enum', i)
+                others = [x for x in sorted(mv.DOC[clsname]) if x != f]
+                if rep % 3 == 0:
+                    sub = []
+                else:
+                    p = rr.choice([0.15, 0.5, 0.85])
+                    sub = [x for x in others if rr.random() < p]
+                yield gen_case(rr, clsname, behavior, sub, 'text', force={f: ['mixed', n]})
+            i += 1
+    r = ctx.rng('mixed-par')
+    for i in range(ctx.size(MIXED_PAR['quick'], MIXED_PAR['thorough'])):
+        clsname, behavior = mv.CONFIGS[i % len(mv.CONFIGS)]
+        yield gen_mixed_paragraph(r, clsname, behavior)
     # histories: one object, several dumps
     r = ctx.rng('history')
     for i in range(ctx.size(HIST['quick'], HIST['thorough'])):
@@ -591,38 +677,38 @@ def as_records(value):
 
 def compare_records(obj, table, expect):
     """None if every structured field of the class shows exactly the expected records
-    (documented sub-field names, values, order) and absent ones are absent; else (kind, message)."""
+    (documented sub-field names, values, order) and absent ones are absent; else (field, kind, message)."""
     for f in sorted(table):
         names = table[f]
         if f not in expect:
             if f in obj:
-                return 'phantom-field', 'field %r was not written but is present: %r' % (f, obj[f])
+                return f, 'phantom-field', 'field %r was not written but is present: %r' % (f, obj[f])
             continue
         if f not in obj:
-            return 'field-lost', 'field %r (%d records) is absent' % (f, len(expect[f]))
+            return f, 'field-lost', 'field %r (%d records) is absent' % (f, len(expect[f]))
         if isinstance(obj[f], (str, bytes)):
-            return 'not-records', 'field %r is exposed as the raw text %r, not as record(s)' % (f, obj[f])
+            return f, 'not-records', 'field %r is exposed as the raw text %r, not as record(s)' % (f, obj[f])
         try:
             got = as_records(obj[f])
         except TypeError:
-            return 'not-records', 'field %r is exposed as %r, not as record(s)' % (f, obj[f])
+            return f, 'not-records', 'field %r is exposed as %r, not as record(s)' % (f, obj[f])
         want = expect[f]
         if len(got) != len(want):
-            return 'record-count', 'field %r: %d records expected, %d exposed: %r' % (f, len(want), len(got), got)
+            return f, 'record-count', 'field %r: %d records expected, %d exposed: %r' % (f, len(want), len(got), got)
         for i, (g, w) in enumerate(zip(got, want)):
             if not hasattr(g, 'keys'):
-                return 'not-records', 'field %r record %d is %r, not a mapping' % (f, i, g)
+                return f, 'not-records', 'field %r record %d is %r, not a mapping' % (f, i, g)
             for name, tok in zip(names, w):
                 try:
                     val = g[name]
                 except KeyError:
-                    return 'subfield-names', ('field %r record %d has no sub-field %r (has %r)'
+                    return f, 'subfield-names', ('field %r record %d has no sub-field %r (has %r)'
                                               % (f, i, name, list(g.keys())))
                 if val != tok:
-                    return 'subfield-values', ('field %r record %d sub-field %r = %r, expected %r (record written: %r, '
+                    return f, 'subfield-values', ('field %r record %d sub-field %r = %r, expected %r (record written: %r, '
                                                'exposed: %r)' % (f, i, name, val, tok, w, dict(g)))
             if len(g) != len(names):
-                return 'subfield-names', 'field %r record %d has sub-fields %r, documented %r' % (f, i, list(g.keys()), names)
+                return f, 'subfield-names', 'field %r record %d has sub-fields %r, documented %r' % (f, i, list(g.keys()), names)
     return None
 
 
@@ -766,6 +852,9 @@ def dump_and_judge(ctx, cls, clsname, obj, state, via, origin, suffix=''):
         if origin == 'parsed' and any(pd_is_3col(f) for f in singles):
             ctx.count('pdiff:parsed-single-line-3col')
 
+    mixed = sorted(state['mixed'])
+    if mixed:
+        ctx.mon('M.mixed.dump')
     ctx.mon('M.dump')
     try:
         txt = do_dump(obj, via)
@@ -791,9 +880,14 @@ def dump_and_judge(ctx, cls, clsname, obj, state, via, origin, suffix=''):
         return False
     bad = compare_records(obj2, table, expect)
     if bad:
-        ctx.violation('roundtrip-%s-%s%s' % (origin, bad[0], suffix),
-                      '%s(%s): dump -> parse: %s; dumped=%r' % (clsname, behavior, bad[1], txt))
+        where = '/field-parsed-from-mixed-layout' if bad[0] in mixed else ''
+        ctx.violation('roundtrip-%s-%s%s%s' % (origin, bad[1], where, suffix),
+                      '%s(%s): dump -> parse: %s; dumped=%r%s'
+                      % (clsname, behavior, bad[2], txt,
+                         '; fields parsed from first-record-on-field-line + continuation lines: %r' % mixed if mixed else ''))
         return False
+    if mixed:
+        ctx.count('mixed:dump-reparsed-equal')
     return True
 
 
@@ -804,12 +898,16 @@ def run_history(ctx, deb822, cls, clsname, obj, state, ops, origin):
     ndump = 0
     prev_widths = None
     nontriv = False
+    edited_mixed = False      # a field parsed from the mixed text layout was edited in place since the last dump
     for op in ops:
         if op[0] != 'dump':
             kind = op_kind(op, state)
             ctx.count('hist:op:%s' % kind)
             if op[0] in ('append', 'insert', 'pop', 'set'):
                 ctx.count('hist:op:in-place(any)')
+                if op[2] in state['mixed']:
+                    ctx.count('hist:op:in-place-on-mixed-layout-field')
+                    edited_mixed = True
             try:
                 lib_apply(deb822, obj, op, table)
             except Exception as e:
@@ -833,6 +931,11 @@ def run_history(ctx, deb822, cls, clsname, obj, state, ops, origin):
             ctx.count('hist:dump-after-switch-to:%s' % state['behavior'])
         if any(OP_CLASS[k] == 'in-place-edit' for k in since):
             ctx.count('hist:dump-after-in-place-edit:%s' % origin)
+        if edited_mixed:
+            ctx.count('hist:dump-after-in-place-edit-on-mixed-layout-field')
+            edited_mixed = False
+        if state['mixed']:
+            ctx.count('hist:dump-with-mixed-layout-field')
         if clsname in mv.ALIGNED:
             widths = widths_of(clsname, state['behavior'], state)
             if prev_widths is not None:
@@ -853,6 +956,36 @@ def run_history(ctx, deb822, cls, clsname, obj, state, ops, origin):
     ctx.count('hist:dumps-per-case:%d' % ndump)
     if nontriv and ndump >= 2:
         ctx.nontrivial()
+
+
+def count_mixed(ctx, case, mixed):
+    """Coverage counters of the mixed text layout (first record on the field line, further records on
+    continuation lines); `mixed` = the fields of this parsed case written that way."""
+    clsname = case['cls']
+    ctx.count('mixed:case')
+    ctx.count('mixed:config:%s' % (clsname if not case['behavior'] else '%s-%s' % (clsname, case['behavior'])))
+    ctx.count('mixed:input:%s' % case['input'])
+    ctx.count('mixed:kind:%s' % ('history' if 'ops' in case else 'single-dump'))
+    for f in mixed:
+        n = len(case['expect'][f])
+        ctx.count('mixed:field:%s:%s' % (clsname, f))
+        ctx.count('mixed:records:%s' % (n if n <= 4 else '5+'))
+        ctx.count('mixed:columns:%d' % len(mv.DOC[clsname][f]))
+    if case.get('last_item') in mixed:
+        ctx.count('mixed:is-last-field-of-paragraph')
+    else:
+        ctx.count('mixed:followed-by-another-field')
+    layouts = set()
+    for f, form in case['forms'].items():
+        if form == 'multi':
+            layouts.add('multi1' if len(case['expect'][f]) == 1 else 'multi')
+        else:
+            layouts.add(form)
+    ctx.count('mixed:paragraph-layouts:%s' % '+'.join(sorted(layouts)))
+    if len(layouts) >= 2:
+        ctx.count('mixed:paragraph-with-other-layouts')
+    if len(mixed) >= 2:
+        ctx.count('mixed:paragraph-with-2+-mixed-fields')
 
 
 def run_case(ctx, case):
@@ -880,10 +1013,17 @@ def run_case(ctx, case):
         for f, form in case['forms'].items():
             ctx.count('form:%s' % form)
         ctx.mon('M.parse')
+        mixed = sorted(f for f, form in case['forms'].items() if form == 'mixed')
+        if mixed:
+            count_mixed(ctx, case, mixed)
         bad = compare_records(obj, table, expect)
         if bad:
-            ctx.violation('parse-%s' % bad[0], '%s(%s input): %s; text=%r' % (clsname, case['input'], bad[1], case['text']))
+            where = '/first-record-on-field-line-plus-continuation-lines' if bad[0] in mixed else ''
+            ctx.violation('parse-%s%s' % (bad[1], where),
+                          '%s(%s input): %s; text=%r' % (clsname, case['input'], bad[2], case['text']))
             return
+        if mixed:
+            ctx.mon('M.mixed', len(mixed))
     else:
         obj = cls()
         if case['behavior']:
